@@ -39,7 +39,7 @@ def run(ctx):
     ctx.rule("C16.R1", "A9 token-set equality of twin-private regions modulo the frozen difference table")
     ps, un = a9.pairs(fb)
     mods = a9.private_modules(fb)
-    entries = [(a, s) for a, s in sorted(ps) if fb.fns[a].vis == "pub"]
+    entries = [(a, s) for a, s in sorted(ps) if fb.fns[a].vis in ("pub", "n/a")]   # n/a: trait impl methods (poll_* pairs)
     ctx.floor("C16.R1", "public async/sync entry pairs", len(entries), PAIR_FLOOR)
     ctx.count("async_fns_without_same_path_twin", len(un))
     equal = differing = 0
